@@ -18,7 +18,12 @@ func probe(args []string) {
 		n, _ := strconv.Atoi(p[2])
 		rr := rand.New(rand.NewSource(int64(seed)))
 		for i := 0; i < n; i++ {
-			doc, di := genDoc(rr, genOpts{allowHazards: true})
+			opt := genOpts{allowHazards: true}
+			if len(p) > 3 {
+				d, _ := strconv.Atoi(p[3])
+				opt = genOpts{dangling: 1 + (i+d)%6}
+			}
+			doc, di := genDoc(rr, opt)
 			docs = append(docs, docCase{name: fmt.Sprintf("gen-%d", i), doc: doc, hazards: di.hazards, desc: strings.Join(di.desc, ",")})
 		}
 	} else {
